@@ -41,17 +41,20 @@ EndsInNewline(out) ==
 
 ContainsContent(out) == \E i \in DOMAIN out : IsTextual(out[i])
 
-\* is there nothing but tags, glue and whitespace after the last newline (or at all)?  A newline pushed now would
-\* end an empty line: it is dropped.  (The engine decides this with EndsInNewline \/ ~ContainsContent on a stream
-\* that it restarts for every line - a tag after a newline always ends the line and rewinds - which comes to the
-\* same thing; stated this way the rule also holds for the stream of a whole turn.)
-RECURSIVE NoContentSinceNewline(_)
-NoContentSinceNewline(out) ==
-  IF out = <<>> THEN TRUE
-  ELSE LET it == Last(out) IN
-       IF it.k = "nl" THEN TRUE
-       ELSE IF NonWs(it) THEN FALSE
-       ELSE NoContentSinceNewline(Front(out))
+\* The engine keeps one stream per LINE: a newline followed by real text or a tag ends the line, and the next line
+\* starts on an empty stream.  The semantics keeps one stream per turn; the part of it that the engine's rules look
+\* at is the current line: everything after the last newline that has been followed by real text or a tag.
+IsContent(it) == NonWs(it) \/ it.k = "tag"
+LastContent(out) == IF \E i \in DOMAIN out : IsContent(out[i]) THEN CHOOSE i \in DOMAIN out : IsContent(out[i]) /\ \A j \in DOMAIN out : IsContent(out[j]) => j <= i ELSE 0
+CurrentLine(out) ==
+  LET c == LastContent(out)
+      nls == {i \in 1..c : out[i].k = "nl"} IN
+  IF nls = {} THEN out ELSE SubSeq(out, (CHOOSE i \in nls : \A j \in nls : j <= i) + 1, Len(out))
+
+\* a newline is dropped when it would end an empty line: the current line ends in a newline already, or holds no
+\* string at all (the text of a tag counts as a string here: a line that is only a tag does get its newline)
+HoldsStrings(line) == \E i \in DOMAIN line : line[i].k \in {"t", "nl", "tag"}
+DropNewline(out) == LET line == CurrentLine(out) IN EndsInNewline(line) \/ ~HoldsStrings(line)
 
 \* index of the glue that is still "open" (no string start after it), 0 if none
 RECURSIVE GlueIndex(_)
@@ -99,7 +102,7 @@ Push(out, it, fnStart) ==
             IF it.k = "nl" THEN [out |-> out, fnDone |-> FALSE]
             ELSE IF NonWs(it) THEN [out |-> Append(IF g # 0 THEN RemoveGlue(out) ELSE out, it), fnDone |-> fnStart # 0]
             ELSE [out |-> Append(out, it), fnDone |-> FALSE]
-       ELSE IF it.k = "nl" /\ NoContentSinceNewline(out) THEN [out |-> out, fnDone |-> FALSE]
+       ELSE IF it.k = "nl" /\ DropNewline(out) THEN [out |-> out, fnDone |-> FALSE]
        ELSE [out |-> Append(out, it), fnDone |-> FALSE]
 
 \* at the end of a function call: whitespace and newlines produced at its end are dropped
